@@ -175,7 +175,7 @@ impl Render {
     fn expr(&mut self, w: Where, e: &E) -> String {
         match e {
             E::Simple => "1".into(),
-            E::Compute => "1 + 1".into(),
+            E::Compute => "1 > 0".into(),
             E::MayPanic { forced: true, .. } => "test_fail()".into(),
             E::MayPanic { id, .. } => {
                 let o = if w == Where::Cmd { self.field(format!("o{id}"), "optional int") } else { "o".into() };
@@ -272,7 +272,7 @@ impl Render {
                         }
                     };
                     eff_idx += 1;
-                    let key = if *compute { format!("{key} + 1") } else { key };
+                    let key = if *compute { format!("saturating_add({key}, 1)") } else { key };
                     match kind {
                         'c' => writeln!(out, "{pad}create C{fam}[k: {key}]=>{{v: 1}}").unwrap(),
                         'u' => writeln!(out, "{pad}update P{fam}[k: {key}]=>{{v: ?}} to {{v: 7}}").unwrap(),
@@ -291,7 +291,7 @@ impl Render {
                 }
                 S::Rec(r) => writeln!(out, "{pad}recall r{r}()").unwrap(),
                 S::Dbg { id } => {
-                    let c = self.cond(w, *id);
+                    let c = if let Where::FinFn(_) = w { (id % 2 == 0).to_string() } else { self.cond(w, *id) };
                     writeln!(out, "{pad}debug_assert({c})").unwrap();
                 }
                 S::Ret => writeln!(out, "{pad}return 0").unwrap(),
@@ -317,7 +317,7 @@ fn render(p: &Prog) -> (String, Vec<(String, &'static str)>, BTreeSet<(String, i
         } else {
             writeln!(fns, "function fn{i}(b bool, o optional int) int {{").unwrap();
             r.block(Where::Pure, &f.body, 1, &mut fns);
-            writeln!(fns, "    return 1\n}}\n").unwrap();
+            writeln!(fns, "}}\n").unwrap();
         }
     }
     let mut policy = String::new();
@@ -428,7 +428,7 @@ impl Walk<'_> {
                 let body = self.p.fns[*f].body.clone();
                 match self.block(Frame { args: Some(args), fin: None }, &body, false) {
                     Flow::Ret => Flow::Fall,
-                    Flow::Fall => Flow::Fall, // the rendered function ends in `return 1`
+                    Flow::Fall => Flow::Exit, // falling off a function's end is `Exit(Panic)`
                     Flow::Exit => Flow::Exit,
                 }
             }
@@ -519,7 +519,8 @@ impl Walk<'_> {
                     Flow::Exit
                 }
                 S::Dbg { id } => {
-                    if self.cond(fr, *id) {
+                    let pass = if fr.fin.is_some() { id % 2 == 0 } else { self.cond(fr, *id) };
+                    if pass {
                         self.ds.push(0);
                         Flow::Fall
                     } else {
@@ -633,6 +634,10 @@ impl Gen<'_> {
     /// a plain block that may end in a finish block (policy / recall contexts)
     fn tail_block(&mut self, ctx: u8, depth: usize, callable: &[usize]) -> Vec<S> {
         let mut b = self.plain_block(ctx, depth, callable);
+        if ctx == 2 && b.is_empty() {
+            // `if b { }` does not parse (`b { }` is read as a struct literal): keep branches non-empty
+            b.push(S::Let(E::Simple));
+        }
         if ctx != 2 && !matches!(b.last(), Some(S::Rec(_))) && self.rng.chance(if depth == 0 { 9 } else { 6 }, 10) {
             let fins = self.fin_fns.clone();
             let mut body = self.finish_body(&fins, 4);
@@ -661,7 +666,8 @@ fn gen_prog(rng: &mut Rng, dbg_in_finish: bool) -> Prog {
             g.fin_fns.push(i);
         } else {
             let callable = g.pure_fns.clone();
-            let body = g.plain_block(2, 1, &callable);
+            let mut body = g.plain_block(2, 1, &callable);
+            body.push(S::Ret);
             fns.push(FnDef { finish: false, body });
             g.pure_fns.push(i);
         }
@@ -982,6 +988,15 @@ fn run_program(rec: &mut Recorder, p: &Prog, expect_reject: Option<&'static str>
 }
 
 fn main() {
+    if let Ok(f) = std::env::var("C30_SRC") {
+        let src = std::fs::read_to_string(f).unwrap();
+        match pk::compile(&src, true) {
+            pk::Compiled::Ok(_) => println!("OK"),
+            pk::Compiled::ParseError(e) => println!("PARSE {e}"),
+            pk::Compiled::Rejected(e) => println!("REJECT {e}"),
+        }
+        return;
+    }
     let args = Args::parse();
     vh::quiet_panics();
     let mut rec = Recorder::new(&args.out);
